@@ -392,7 +392,7 @@ func (c *Ctx) zero(t types.Type) Term {
 		return c.mkStruct(t, fs)
 	case *types.Array:
 		z := c.zero(u.Elem())
-		return Term{fmt.Sprintf("((as const %s) %s)", srt, z.S), srt}
+		return Term{fmt.Sprintf("((as const %s) %s)", srt, constValue(z.S)), srt}
 	}
 	// type parameter: a declared zero constant per sort
 	zn := "zero_" + sanitizeIdent(srt)
@@ -448,6 +448,9 @@ func (c *Ctx) wfHeap(h Term, sort string, alloc Term) {
 	if sort != SPtr {
 		return
 	}
+	// every cell, also of objects that do not exist yet (their content is junk that nothing else
+	// constrains: append defines a NEW pointer heap instead of claiming the content of a new
+	// array was there before, and make/new only claim nil)
 	c.assume(Term{fmt.Sprintf("(forall ((p Ptr)) (! (< (rootid (select %s p)) %s) :pattern ((select %s p))))", h.S, alloc.S, h.S), SBool})
 }
 
@@ -490,7 +493,7 @@ func (c *Ctx) load(st *State, p Term, t types.Type) Term {
 		srt := c.sortOf(t)
 		n := u.Len()
 		if n <= 32 {
-			arr := Term{fmt.Sprintf("((as const %s) %s)", srt, c.zero(u.Elem()).S), srt}
+			arr := Term{fmt.Sprintf("((as const %s) %s)", srt, constValue(c.zero(u.Elem()).S)), srt}
 			for i := int64(0); i < n; i++ {
 				arr = sto(arr, tInt(i), c.load(st, elemPtr(p, tInt(i)), u.Elem()))
 			}
@@ -819,4 +822,12 @@ func knownFindingNames() map[string]bool {
 		}
 	}
 	return out
+}
+
+// constValue rewrites the defined nil constants into constructor terms: cvc5 accepts only values
+// as the element of a constant array.
+func constValue(s string) string {
+	s = strings.ReplaceAll(s, "niliface", "(mkiface 0 0)")
+	s = strings.ReplaceAll(s, "nilslice", "(mkslice pnil 0 0 0)")
+	return s
 }
